@@ -68,6 +68,10 @@ RULES = {
     'R-STRSORT': generic_rules.r_strsort,
     'R-FMTDATA': generic_rules.r_fmtdata,
     'R-COUNTERUNION': generic_rules.r_counterunion,
+    'R-INSTR': generic_rules.r_instr,
+    'R-ORDEFAULT': generic_rules.r_ordefault,
+    'R-KEYCOPY': generic_rules.r_keycopy,
+    'R-SHAREDMUT': generic_rules.r_sharedmut,
 }
 
 
@@ -103,7 +107,7 @@ EDITORS = ('transform.punctuation_delete', 'transform.ptb_delete_traces', 'trans
 
 PROPS = {
     'C01': {
-        'rules': ['R-AUTOMATON', 'R-READER-STATE', 'R-LINK', 'R-SIBLING', 'R-OPTKEY', 'R-ENC', 'R-ROOTSCAN', 'R-NODELINE', 'R-STATE'],
+        'rules': ['R-AUTOMATON', 'R-READER-STATE', 'R-LINK', 'R-SIBLING', 'R-OPTKEY', 'R-ENC', 'R-ROOTSCAN', 'R-NODELINE', 'R-STATE', 'R-LABELSPLIT'],
         'filter': {'R-STATE': both(rule('R-STATE/G1'), site('treeinput', 'misc', 'trees')),
                    'R-LINK': site('treeinput.', 'trees.Tree'),
                    'R-OPTKEY': site('treeinput.', 'trees.parse_label'),
@@ -115,7 +119,7 @@ PROPS = {
                        'gf_split / gf_separator / replace_parens / continuous / quiet have the same code in every '
                        'format; option keys are literal, tested before use and forwarded; every reader gunzips; the TIGER root is '
                        'searched among all nodes. '
-                       'Also: the export node-line test is exactly `#` + three digits; readers and gunzip keep no state between calls (what is read is the file as it is now). Does NOT decide: export field splitting, TIGER id-ref resolution, character decoding.',
+                       'Also: the export node-line test is exactly `#` + three digits; readers and gunzip keep no state between calls (what is read is the file as it is now); parse_label (used by gf_split) takes the decorations off from the right in the order head marker, co-index, gap index, each cut at the position tested. Does NOT decide: export field splitting, TIGER id-ref resolution, character decoding.',
     },
     'C02': {
         'rules': ['R-ESC', 'R-VOCAB', 'R-NONE', 'R-GUARD', 'DECOR', 'R-EXPNUM', 'R-LEVELS', 'R-TABS', 'R-ORDERED',
@@ -136,7 +140,7 @@ PROPS = {
                        'independent decoder recovers the tree, tab-stop widths, terminals output text.',
     },
     'C03': {
-        'rules': ['R-FRAMEFILE', 'R-DISPATCH', 'R-ENC', 'R-NONE', 'R-VOCAB', 'R-AUTOMATON', 'R-OPTKEY', 'R-READER-STATE', 'R-DIRMODE', 'R-OPENMODE', 'R-SIBLING', 'R-OPTSIDE', 'R-PERTREE', 'R-NODELINE', 'DECOR', 'R-TABS', 'R-LINK', 'R-ESC'],
+        'rules': ['R-FRAMEFILE', 'R-DISPATCH', 'R-ENC', 'R-NONE', 'R-VOCAB', 'R-AUTOMATON', 'R-OPTKEY', 'R-READER-STATE', 'R-DIRMODE', 'R-OPENMODE', 'R-SIBLING', 'R-OPTSIDE', 'R-PERTREE', 'R-NODELINE', 'DECOR', 'R-TABS', 'R-LINK', 'R-ESC', 'R-ROOTSCAN'],
         'filter': {'R-LINK': site('treeinput.'),
                    'R-PERTREE': site('transform.run'),
                    'R-OPTSIDE': site('transform.run'),
@@ -174,7 +178,7 @@ PROPS = {
                    'R-FRAME': site('transform.boyd_split', 'transform.raising'),
                    'R-ORDERED': either(both(rule('R-ORDERED/RAW'), site('transform.', 'trees.')),
                                        both(rule('R-ORDERED/DEF'), site('trees.children', 'trees.terminals'))),
-                   'R-HEADS': rule('R-HEADS/MARK', 'R-HEADS/RANGE')},
+                   'R-HEADS': rule('R-HEADS/MARK', 'R-HEADS/RANGE', 'R-HEADS/NEGRA')},
         'explanation': 'Decides: link pairing at the split/raise sites; one copy node per block with split/head/'
                        'head_block/block_number set unconditionally; defaults on every visited node; the head-block '
                        'flag can only come from the head child (boolean normal form); the block test is the shared '
@@ -255,7 +259,7 @@ PROPS = {
         'filter': {'R-ROOT': site(*EDITORS),
                    'R-KEEP': site('trees.delete_terminal'),
                    'R-LABELEDIT': site('transform.ptb_delete_traces'),
-                   'R-STATE': rule('R-STATE/G3'),
+                   'R-STATE': either(rule('R-STATE/G3'), both(rule('R-STATE/G1'), site('trees', 'transform'))),
                    'R-FRAME': site(*EDITORS)},
         'explanation': 'Decides: editing transformations return the root; deletion/insertion shift exactly the tokens '
                        'right of / at the position by one; every effect of insert/substitute is dominated by '
@@ -393,7 +397,7 @@ PROPS = {
 }
 
 # generic misuse patterns (ttsa/rules/generic_rules.py) are looked for in the functions each property is anchored in
-GENERIC = ['R-SUBSTR', 'R-DEADCHECK', 'R-FALSYZERO', 'R-DICTCOMP', 'R-STALEACC', 'R-ZEROTABLE', 'R-LEAKVAR', 'R-STRSORT', 'R-FMTDATA', 'R-COUNTERUNION']
+GENERIC = ['R-SUBSTR', 'R-DEADCHECK', 'R-FALSYZERO', 'R-DICTCOMP', 'R-STALEACC', 'R-ZEROTABLE', 'R-LEAKVAR', 'R-STRSORT', 'R-FMTDATA', 'R-COUNTERUNION', 'R-INSTR', 'R-ORDEFAULT', 'R-KEYCOPY', 'R-SHAREDMUT']
 PROP_SITES = {
     'C01': ('treeinput.', 'trees.parse_label', 'misc.'),
     'C02': ('treeoutput.', 'trees.get_label', 'treeanalysis.gap'),
